@@ -423,8 +423,11 @@ class AddLog8(_AddLog):
 
 
 class _MergeLog(Contract):
-    """structural + reserved-range + saturation clauses are proved over reals; the rounding branch
-    (nearest counter) is covered by the bounded float stand-in of C09 (labelled bounded)."""
+    """cell-wise specification of the log merges over reals (the property's wording):
+       v = decoded(a) + decoded(b);  v <= num_reserved -> a + b;  v >= max_count -> ceiling;
+       otherwise the counter nearest to v among the two consecutive counters that bracket v
+       (ties to the lower one).  ln / pow are uninterpreted; only instances of their defining
+       laws at the terms of the current cell are assumed (listed in the evidence)."""
 
     mode = "int"
     modifies = ("cms", "n_added_records")
@@ -437,41 +440,112 @@ class _MergeLog(Contract):
         yield "counters.len", z3.And(F.n_added_records.shape[0] >= 2, F.other_n_added_records.shape[0] >= 2)
         yield "base>1", F.base > 1
         yield "reserved<ceiling", F.num_reserved < F.uint_maxval
+        yield "ceiling-decodes-to-max_count", DEC(F.uint_maxval, F.num_reserved, F.base) == z3.ToReal(F.max_count)
+
+    ghost_note = "CELL(a, b, s) names the cell-wise merge relation (a definition, unfolded only where the name occurs)"
+
+    def ghosts(self, F):
+        return [("CELL", lambda nm: z3.Function(nm, z3.IntSort(), z3.IntSort(), z3.IntSort(), z3.BoolSort()))]
 
     def ghost_defs(self, F):
         x = z3.Real("powx")
-        # axiom b^x > 1 for b > 1, x > 0 (uninterpreted POW)
+        # axiom b^x > 1 for b > 1, x > 0 (uninterpreted POW).  The definition of CELL is unfolded
+        # only for the cell being processed (inner invariant); users of the contract get it whole.
         return [z3.ForAll([x], z3.Implies(x > 0, POW(F.base, x) > 1), patterns=[POW(F.base, x)])]
+
+    def call_defs(self, F):
+        a, b, s_ = z3.Ints("ca cb cs")
+        C = F.g.CELL
+        return list(self.ghost_defs(F)) + [z3.ForAll([a, b, s_], C(a, b, s_) == self.cell(F, a, b, s_), patterns=[C(a, b, s_)])]
+
+    def cell_def_at(self, F, a, b):
+        s_ = z3.Int("cs")
+        C = F.g.CELL
+        return z3.ForAll([s_], C(a, b, s_) == self.cell(F, a, b, s_), patterns=[C(a, b, s_)])
+
+    def bracket(self, F, a, b):
+        """the counter cl with decoded(cl) <= v < decoded(cl+1), as a term: floor(log_base(...)) + nr"""
+        nr, base = F.num_reserved, F.base
+        v = DEC(a, nr, base) + DEC(b, nr, base)
+        x = (v - z3.ToReal(nr)) * (base - 1) + 1
+        cpf = LN(x) / LN(base)
+        return v, x, cpf, z3.ToInt(cpf) + nr
+
+    def law_instances(self, F, a, b):
+        """instances of the laws of ln / pow at this cell's terms (definitional, assumed)"""
+        nr, base, umax = F.num_reserved, F.base, F.uint_maxval
+        v, x, cpf, cl = self.bracket(F, a, b)
+        cp = z3.ToReal(cl - nr)
+        return z3.And(
+            z3.Implies(x > 0, POW(base, cpf) == x),  # b^(log_b x) = x
+            LN(base) > 0,
+            z3.Implies(x > 1, LN(x) > 0),
+            POW(base, R(0)) == 1,
+            z3.Implies(cp <= cpf, POW(base, cp) <= POW(base, cpf)),  # monotone in the exponent
+            z3.Implies(cpf < cp + 1, POW(base, cpf) < POW(base, cp + 1)),
+            z3.Implies(cp >= z3.ToReal(umax) - z3.ToReal(nr), POW(base, cp) >= POW(base, z3.ToReal(umax) - z3.ToReal(nr))),
+            POW(base, cp + 1) == base * POW(base, cp),
+            z3.Implies(a > nr, POW(base, z3.ToReal(a) - z3.ToReal(nr)) > 1),  # b^x > 1 for x > 0
+            z3.Implies(b > nr, POW(base, z3.ToReal(b) - z3.ToReal(nr)) > 1),
+        )
 
     def cell(self, F, a, b, s):
         nr, umax, base = F.num_reserved, F.uint_maxval, F.base
-        v = DEC(a, nr, base) + DEC(b, nr, base)
+        v, x, cpf, cl = self.bracket(F, a, b)
+        dl, dh = DEC(cl, nr, base), DEC(cl + 1, nr, base)
+        mid = z3.And(v > z3.ToReal(nr), v < z3.ToReal(F.max_count))
         return z3.And(
             z3.Implies(v <= z3.ToReal(nr), s == a + b),
             z3.Implies(z3.And(v > z3.ToReal(nr), v >= z3.ToReal(F.max_count)), s == umax),
+            # nearest of the two bracketing counters, ties down: stated as the ratio test
+            # (v - dl)/(dh - dl) <= 1/2; lemma c09:ratio-test-is-nearest shows it is v - dl <= dh - v
+            z3.Implies(mid, z3.And(cl >= nr, cl < umax, dl <= v, v < dh, s == z3.If((v - dl) / (dh - dl) <= z3.Q(1, 2), cl, cl + 1))),
         )
 
     def ensures(self, F):
         cells = [(0, F.depth), (0, F.width)]
-        yield "x-cells-reserved-and-saturated", F.forall(cells, lambda r, c: self.cell(F, F.pre.cms(r, c), F.other_cms(r, c), F.post.cms(r, c)))
+        yield "x-cells", F.forall(cells, lambda r, c: F.g.CELL(F.pre.cms(r, c), F.other_cms(r, c), F.post.cms(r, c)))
         yield "x-n_added", F.post.n_added_records(0) == wrap64(F.pre.n_added_records(0) + F.other_n_added_records(0))
         yield "x-n_records", F.post.n_added_records(1) == wrap64(F.pre.n_added_records(1) + F.other_n_added_records(1))
 
     def _outer(self, F, L):
         k = L.k
-        yield "rows-done", F.forall([(0, k), (0, F.width)], lambda r, c: self.cell(F, F.pre.cms(r, c), F.other_cms(r, c), L.cur.cms(r, c)))
+        yield "rows-done", F.forall([(0, k), (0, F.width)], lambda r, c: F.g.CELL(F.pre.cms(r, c), F.other_cms(r, c), L.cur.cms(r, c)))
         yield "rows-rest", F.forall([(0, F.depth), (0, F.width)], lambda r, c: z3.Implies(r >= k, L.cur.cms(r, c) == F.pre.cms(r, c)))
         yield "counters", z3.And(L.cur.n_added_records(0) == F.pre.n_added_records(0), L.cur.n_added_records(1) == F.pre.n_added_records(1))
 
     def _inner(self, F, L):
         j = L.k
         row = L.var("row")
+        if L.phase == "preserve":
+            # proof script for the cell just written: (1) the stored value satisfies the cell relation
+            # (quantifier-free, from the callee contracts and the ln/pow law instances), (2) unfold the
+            # name CELL at this cell; the quantified clauses below then need no real arithmetic
+            k0 = L.k_header
+            a0, b0, s1 = L.header.cms(row, k0), F.other_cms(row, k0), L.cur.cms(row, k0)
+            v_, x_, cpf_, cl_ = self.bracket(F, a0, b0)
+            mid = z3.And(v_ > z3.ToReal(F.num_reserved), v_ < z3.ToReal(F.max_count))
+            dl_, dh_ = DEC(cl_, F.num_reserved, F.base), DEC(cl_ + 1, F.num_reserved, F.base)
+            yield "lemma-ground:log-argument>1", z3.Implies(mid, z3.And(x_ > 1, cpf_ > 0))
+            yield "lemma-ground:bracket-lower", z3.Implies(mid, z3.And(cl_ >= F.num_reserved, dl_ <= v_))
+            yield "lemma-ground:bracket-upper", z3.Implies(mid, v_ < dh_)
+            yield "lemma-ground:bracket-below-ceiling", z3.Implies(mid, cl_ < F.uint_maxval)
+            for nm, spec in (("clower", cl_), ("vlower", dl_), ("vhigher", dh_)):
+                loc = L.local(nm)
+                if loc is not None:  # only on the paths through the rounding branch
+                    yield "lemma-ground:local-%s-is-the-spec-term" % nm, z3.Implies(mid, (z3.ToReal(loc) if z3.is_int(loc) and z3.is_real(spec) else loc) == spec)
+                    if nm == "clower":
+                        yield "lemma-ground:clower+1-fits-the-counter-type", z3.Implies(mid, z3.And(loc >= 0, loc + 1 <= F.uint_maxval, loc + 1 > F.num_reserved))
+            yield "lemma-ground:cell-relation-at-the-written-cell", self.cell(F, a0, b0, s1)
+            yield "def:CELL-unfolded-at-the-written-cell", F.g.CELL(a0, b0, s1) == self.cell(F, a0, b0, s1), True
         yield "row-range", z3.And(row >= 0, row < F.depth)
-        yield "rows-done", F.forall([(0, row), (0, F.width)], lambda r, c: self.cell(F, F.pre.cms(r, c), F.other_cms(r, c), L.cur.cms(r, c)))
-        yield "row-done", F.forall([(0, j)], lambda c: self.cell(F, F.pre.cms(row, c), F.other_cms(row, c), L.cur.cms(row, c)))
+        yield "rows-done", F.forall([(0, row), (0, F.width)], lambda r, c: F.g.CELL(F.pre.cms(r, c), F.other_cms(r, c), L.cur.cms(r, c)))
+        yield "row-done", F.forall([(0, j)], lambda c: F.g.CELL(F.pre.cms(row, c), F.other_cms(row, c), L.cur.cms(row, c)))
         yield "row-rest", F.forall([(0, F.width)], lambda c: z3.Implies(c >= j, L.cur.cms(row, c) == F.pre.cms(row, c)))
         yield "rows-rest", F.forall([(0, F.depth), (0, F.width)], lambda r, c: z3.Implies(r > row, L.cur.cms(r, c) == F.pre.cms(r, c)))
         yield "counters", z3.And(L.cur.n_added_records(0) == F.pre.n_added_records(0), L.cur.n_added_records(1) == F.pre.n_added_records(1))
+        if L.phase == "assume":  # definitional instances for the cell processed next (never checked, only assumed)
+            yield "def:ln-pow-laws-at-this-cell", self.law_instances(F, L.cur.cms(row, j), F.other_cms(row, j)), True
 
     @property
     def loops(self):
